@@ -203,6 +203,9 @@ var bigSizesThorough = append(append([]int{}, bigSizes...), 511, 512, 513, 700, 
 var bigStrides = []int{0, 1, -1, 2, 5, 7, 11, 13, 97, -3, 7919}
 var bigVals = []int{1, 2, 3, 7, 7, 30, 300, 5000}
 
+// bigAdvs: one run in four is laid out as a quicksort-killer permutation (see Fill.Adv).
+var bigAdvs = []int{0, 0, 0, 0, 0, 0, 0, 0, 0, 0, 0, 0, 0, 0, 0, 0, 0, 0, 1, 1, 2, 4, 4, 6}
+
 // bigKindTable: two ops in 27 are a runtime.GC() in the middle of the history (used by one case in six: a collection
 // costs as much as thousands of calls, far more on a busy machine).
 var bigKindTable = append(append([]int{}, kindTable...), opGC, opGC)
@@ -221,7 +224,8 @@ func genBig(t *rapid.T, sizes []int) Case {
 		c.Init = []int{}
 	}
 	fill := rapid.Custom(func(t *rapid.T) Fill {
-		return Fill{N: rapid.SampledFrom(sizes).Draw(t, "n"), A: rapid.IntRange(0, 300).Draw(t, "a"), S: rapid.SampledFrom(bigStrides).Draw(t, "s")}
+		return Fill{N: rapid.SampledFrom(sizes).Draw(t, "n"), A: rapid.IntRange(0, 300).Draw(t, "a"), S: rapid.SampledFrom(bigStrides).Draw(t, "s"),
+			Adv: rapid.SampledFrom(bigAdvs).Draw(t, "adv")}
 	})
 	c.Bulk = rapid.SliceOfN(fill, 1, 3).Draw(t, "bulk")
 	c.Spare = rapid.IntRange(0, 3).Draw(t, "spare")
@@ -240,7 +244,7 @@ func genBig(t *rapid.T, sizes []int) Case {
 
 var specBigRand = pbt.Register(&pbt.Spec[Case]{
 	Property: "C07", Name: "C07.bigrand",
-	Rule: "rapid: BIG random histories: all 15 orders/element types; initial input = 0..6 explicit values plus 1..3 arithmetic runs whose lengths are drawn from sizes around 20, 32, 48, 64, 128, 256 (thorough: also 512, 1024), strides 0, +-1, small and large primes, Vals in {1,2,3,7,30,300,5000}; " +
+	Rule: "rapid: BIG random histories: all 15 orders/element types; initial input = 0..6 explicit values plus 1..3 arithmetic runs whose lengths are drawn from sizes around 20, 32, 48, 64, 128, 256 (thorough: also 512, 1024), strides 0, +-1, small and large primes, one run in four laid out as a quicksort-killer permutation (McIlroy's adversary against the library itself, sort.Slice, the Go 1.18 sort.Sort or a middle-pivot quicksort), Vals in {1,2,3,7,30,300,5000}; " +
 		"0..34 ops (raw arguments 0..300; in one case of six two ops in 27 are a runtime.GC(), once or twice), each repeated 1..71 times (half of them once) with strides, the list run 1..9 times; GOMAXPROCS 4 (process default, 6 cases in 14) or 1, 2, 3, 5, 6, 7, 12, 16. " + rule + ruleNT,
 	Gen: func(t *rapid.T) Case {
 		if pbt.GetEnv().Tier == "thorough" {
